@@ -263,6 +263,7 @@ class Engine:
         self.slice_cap = None
         self.feature_model = {}
         self.valsets = {}
+        self.lock_cells = {}
         self._cur_mem = None
         from . import models
         models.install(self)
